@@ -144,6 +144,13 @@ def run_load(shard, tier, acc):
             continue
         rdir = os.path.join(root, 'r')
         R.write_ruleset(rdir, spec)
+        if idx % 2 == 1:
+            # every second ruleset: the structure list without a newline behind its last line (a file that was edited by hand)
+            gpath = os.path.join(rdir, 'Grammar', 'grammar.txt')
+            with open(gpath, 'rb') as fh:
+                raw = fh.read()
+            with open(gpath, 'wb') as fh:
+                fh.write(raw.rstrip(b'\r\n'))
         pm = next((p for s, p in spec['grammar'] if s == 'M'), 0.0)
         has_m = any(s == 'M' for s, _ in spec['grammar'])
         case0 = {'kind': 'load', 'spec': spec}
